@@ -174,7 +174,10 @@ def vcs_for_case(case):
             return args[0].fields['name']
         fr = E.Frame({'net': net, 'varname': E.Builtin('varname', varname), 'file': None}, mod)
         fr.func = None
-        I.exec_block(loop.body, fr)
+        try:
+            I.exec_block(loop.body, fr)
+        except E.ContinueSig:
+            pass            # `continue`: this iteration of the loop ends here
         lines = [ln.strip() for ln in out if ln.strip()]
         if len(lines) != 1:
             st.vc('one assign statement is printed for the net', z3.BoolVal(False), kind='post')
